@@ -106,6 +106,14 @@ func VerifC12_Info() {
 	verifAssert(ret.IP == ip && ret.Instance == inst, "the answer returned to the client is the one received")
 	h := st.ccp.cache[ip]
 	verifAssert(h != nil, "answered source is cached")
+	if h != nil {
+		// an answer (first lookup or refresh, successful or not) is not a use of the entry
+		if e.present {
+			verifAssert(h.lastAccessNano == e.lastAccess, "a refresh answer leaves the entry's last-use time alone (idle entries must still be evicted)")
+		} else {
+			verifAssert(h.lastAccessNano == st.now, "a new entry's last-use time is the time of its creation")
+		}
+	}
 	got, hit := st.ccp.Peek(ip)
 	verifAssert(hit, "answered source is a cache hit")
 	switch {
